@@ -2,7 +2,9 @@ import Hive.Proofs.OMapSeq
 import Hive.Proofs.OMapPtr
 import Hive.Proofs.OMapConc
 import Hive.Proofs.OMapLin
+import Hive.Proofs.OMapIter
 import Hive.Model.OMapLine
+import Hive.Gen.C11_Skel
 /-!
 # C11 — OrderedMap and Set: insertion-ordered model, exact diffs, no deadlock
 
@@ -349,6 +351,46 @@ theorem C11_codec_concrete :
 
 example : decode decU16 decVoid [] (encode encU16 encVoid (newSet [3, 1, 2])) = (newSet [3, 1, 2], some 10) := by decide
 
+/-! ## weak iteration -/
+
+/-- **Full statement.** A `ForEach` (`fwd = true`) or `ForEachReverse` (`fwd = false`) on the map
+reached by any history, with arbitrary writers (`script`: per visit a list of `Set`/`Delete`/`Clear`,
+run by the consumer or by other goroutines while the lock is released) between its steps: if it runs
+to completion, the keys it passed to the consumer, restricted to the keys that were live throughout
+(present at the start, never deleted or cleared meanwhile), are exactly those keys, each once, in
+(reverse) insertion order. -/
+def C11_weak_iteration_statement : Prop :=
+  ∀ (fwd : Bool) (h : List MOp) (fuel : Nat) (script : List (List MOp × Bool)),
+    let p0 := PMap.run h
+    let r := PMap.weakWalk fwd fuel p0 (if fwd then p0.head else p0.tail) script
+    r.2.2 = true →
+    (r.2.1.map (·.2.1)).filter (PMap.liveThrough p0 script)
+      = ((if fwd then AMap.keys (AMap.run h) else (AMap.keys (AMap.run h)).reverse)).filter (PMap.liveThrough p0 script)
+
+/-- The forward half (`ForEach`) of `C11_weak_iteration_statement`, proved over the pointer-level model:
+the iterator follows `next` pointers of possibly unlinked elements, element identities strictly
+increase along every `next` pointer of an element that was live at some time during the iteration, and
+no such pointer ever jumps over an element that stays live.  Missing: the mirror-image argument for
+`ForEachReverse` (`prev` pointers); that direction is covered by the correspondence run and its
+weak-iteration oracle only. -/
+theorem C11_weak_iteration_partial (h : List MOp) (fuel : Nat) (script : List (List MOp × Bool))
+    (hdone : (PMap.weakWalk true fuel (PMap.run h) (PMap.run h).head script).2.2 = true) :
+    ((PMap.weakWalk true fuel (PMap.run h) (PMap.run h).head script).2.1.map (·.2.1)).filter
+        (PMap.liveThrough (PMap.run h) script)
+      = (AMap.keys (AMap.run h)).filter (PMap.liveThrough (PMap.run h) script) := by
+  obtain ⟨habs, hinv⟩ := PMap.run_refines h
+  rw [PMap.weak_iteration_fwd hinv fuel script hdone, ← habs, PMap.keys_abs]
+
+/-- the probe of section 7: while visiting key 1 the consumer deletes 1 and 2 and re-inserts 1 — the
+iteration walks through the unlinked elements (it even reports the deleted key 2) and visits the
+re-inserted 1 again, but the keys live throughout (0, 3, 4) come exactly once and in order -/
+example :
+    let h : List MOp := [.set 0 0, .set 1 1, .set 2 2, .set 3 3, .set 4 4]
+    let script : List (List MOp × Bool) := [([], false), ([.del 1, .del 2, .set 1 5], false)]
+    let r := PMap.weakWalk true 100 (PMap.run h) (PMap.run h).head script
+    r.2.1.map (·.2.1) = [0, 1, 2, 3, 4, 1] ∧ r.2.2 = true ∧
+    (r.2.1.map (·.2.1)).filter (PMap.liveThrough (PMap.run h) script) = [0, 3, 4] := by decide
+
 /-! ## concurrency: every method returns -/
 open Hive.Conc
 
@@ -440,5 +482,86 @@ theorem C11_lincheck_sound (init : ASet) (cs : List HCall) (h : linearizable ini
 
 example : linearizable (newSet [1]) [⟨.add 1, .bool false, 0, 3⟩, ⟨.del 1, .bool true, 1, 2⟩, ⟨.has 1, .bool false, 4, 5⟩] = true
     ∧ linearizable (newSet []) [⟨.has 1, .bool true, 0, 1⟩, ⟨.add 1, .bool true, 2, 3⟩] = false := by decide
+
+/-! ## regenerated lock skeletons
+
+`Hive/Gen/C11_Skel.lean` is regenerated from the working tree on every run (`harness/tools/extract-sync`).
+The lock scripts of `Hive/Model/OMapConc.lean` (`methodScript`, `omSet`, `omDelete`, `omRead`, `omClear`)
+were written against exactly these skeletons: `Add`/`Delete`/`AddAll`/`DeleteAll` take `applyMutex.RLock`
+once and call `OrderedMap.Set` / `OrderedMap.Delete` (never a `set` method that locks again),
+`Apply`/`Compute`/`Replace` take `applyMutex.Lock`, the ordered-map methods take only `mutex`, and
+`ForEach` releases it before every consumer call.  A change of the code's locking structure breaks
+these obligations. -/
+
+open Hive.Gen.C11Skel in
+theorem C11_skeleton_set_Add : skel_set_Add =
+    ["rlock s.applyMutex", "defer runlock s.applyMutex", "call s.Set", "return"] := by decide
+
+open Hive.Gen.C11Skel in
+theorem C11_skeleton_set_AddAll : skel_set_AddAll =
+    ["rlock s.applyMutex", "defer runlock s.applyMutex", "func{", "call s.Set", "if{",
+      "call addedElements.Add", "}if", "return", "}func", "call elements.ForEach", "return"] := by decide
+
+open Hive.Gen.C11Skel in
+theorem C11_skeleton_set_Delete : skel_set_Delete =
+    ["rlock s.applyMutex", "defer runlock s.applyMutex", "call s.OrderedMap.Delete", "return"] := by decide
+
+open Hive.Gen.C11Skel in
+theorem C11_skeleton_set_DeleteAll : skel_set_DeleteAll =
+    ["rlock s.applyMutex", "defer runlock s.applyMutex", "func{", "call s.OrderedMap.Delete", "if{",
+      "call removedElements.Add", "}if", "return", "}func", "call other.ForEach", "return"] := by decide
+
+open Hive.Gen.C11Skel in
+theorem C11_skeleton_set_Apply : skel_set_Apply =
+    ["lock s.applyMutex", "defer unlock s.applyMutex", "call s.apply", "return"] := by decide
+
+open Hive.Gen.C11Skel in
+theorem C11_skeleton_set_Compute : skel_set_Compute =
+    ["lock s.applyMutex", "defer unlock s.applyMutex", "call s.apply", "return"] := by decide
+
+open Hive.Gen.C11Skel in
+theorem C11_skeleton_set_Replace : skel_set_Replace =
+    ["lock s.applyMutex", "defer unlock s.applyMutex", "call s.ToSlice", "call s.Clear", "func{", "call s.Set",
+      "}func", "call elements.Range", "for{", "call s.Has", "if{", "call removedElements.Add", "}if", "}for",
+      "return"] := by decide
+
+open Hive.Gen.C11Skel in
+theorem C11_skeleton_set_apply : skel_set_apply =
+    ["func{", "call s.Set", "if{", "call addedElements.Add", "}if", "}func",
+      "call mutations.AddedElements().Range", "func{", "call s.OrderedMap.Delete", "if{",
+      "call removedElements.Add", "}if", "}func", "call mutations.DeletedElements().Range", "return"] := by decide
+
+open Hive.Gen.C11Skel in
+theorem C11_skeleton_OrderedMap_Set : skel_OrderedMap_Set =
+    ["lock o.mutex", "defer unlock o.mutex", "call o.dictionary.Get", "if{", "return", "}if", "if{", "}else{",
+      "}if", "call o.dictionary.Set", "return"] := by decide
+
+open Hive.Gen.C11Skel in
+theorem C11_skeleton_OrderedMap_Delete : skel_OrderedMap_Delete =
+    ["call o.Get", "if{", "return", "}if", "lock o.mutex", "defer unlock o.mutex", "call o.dictionary.Get",
+      "if{", "return", "}if", "call o.dictionary.Delete", "if{", "}else{", "}if", "if{", "}else{", "}if",
+      "return"] := by decide
+
+open Hive.Gen.C11Skel in
+theorem C11_skeleton_OrderedMap_Get : skel_OrderedMap_Get =
+    ["rlock o.mutex", "defer runlock o.mutex", "call o.dictionary.Get", "if{", "return", "}if", "return"] := by decide
+
+open Hive.Gen.C11Skel in
+theorem C11_skeleton_OrderedMap_Has : skel_OrderedMap_Has =
+    ["rlock o.mutex", "defer runlock o.mutex", "call o.dictionary.Has", "return"] := by decide
+
+open Hive.Gen.C11Skel in
+theorem C11_skeleton_OrderedMap_Clear : skel_OrderedMap_Clear =
+    ["if{", "return", "}if", "lock o.mutex", "defer unlock o.mutex"] := by decide
+
+open Hive.Gen.C11Skel in
+theorem C11_skeleton_OrderedMap_ForEach : skel_OrderedMap_ForEach =
+    ["if{", "return", "}if", "rlock o.mutex", "runlock o.mutex", "for{", "if{", "return", "}if",
+      "rlock o.mutex", "runlock o.mutex", "}for", "return"] := by decide
+
+open Hive.Gen.C11Skel in
+theorem C11_skeleton_OrderedMap_ForEachReverse : skel_OrderedMap_ForEachReverse =
+    ["if{", "return", "}if", "rlock o.mutex", "runlock o.mutex", "for{", "if{", "return", "}if",
+      "rlock o.mutex", "runlock o.mutex", "}for", "return"] := by decide
 
 end Hive.OMap
